@@ -16,7 +16,7 @@
 (*                     dtype; H itself is never instantiated here, so one  *)
 (*                     evaluation is right for every integer width         *)
 (* Modules working on ids use plain integers; the value-level catalogue of *)
-(* the elementwise operators uses records throughout (X(n) lifts).         *)
+(* the elementwise operators uses records throughout (Fin(n) lifts).         *)
 (* The harness has the concretisation function into each Go element type.  *)
 (***************************************************************************)
 EXTENDS Integers, Sequences, FiniteSets
@@ -43,7 +43,7 @@ GCD(a, b) == IF b = 0 THEN a ELSE GCD(b, a % b)
 TDiv(a, b) == SignI(a) * SignI(b) * (AbsI(a) \div AbsI(b))
 CeilDiv(a, b) == -((-a) \div b)          \* b > 0
 
-X(n)       == [c |-> "fin", n |-> n, d |-> 1]
+Fin(n)       == [c |-> "fin", n |-> n, d |-> 1]
 Rat(n, d)  == LET g == GCD(AbsI(n), AbsI(d))
                   s == IF d < 0 THEN -1 ELSE 1
               IN [c |-> "fin", n |-> s * (n \div g), d |-> s * (d \div g)]
@@ -54,7 +54,7 @@ NInf == Special("ninf")
 NZ   == Special("nz")
 FMax == Special("max")
 NMax == Special("nmax")
-Sym(q, r) == IF q % 2 = 0 THEN X(r) ELSE [c |-> "sym", n |-> 1, d |-> r]
+Sym(q, r) == IF q % 2 = 0 THEN Fin(r) ELSE [c |-> "sym", n |-> 1, d |-> r]
 
 \* ------------------------------------------------------- IEEE float domain
 \* decomposition into sign and magnitude class: "z" zero, "f" finite rational,
@@ -70,12 +70,12 @@ FMag(x)  == CASE x.c = "fin"  -> IF x.n = 0 THEN "z" ELSE "f"
 IsNaN(x) == x.c = "nan"
 FAbsRat(x) == Rat(AbsI(x.n), x.d)         \* only for magnitude "f"
 FMk(sign, mag, q) ==      \* q : positive rational record, used when mag = "f"
-   CASE mag = "z" -> IF sign < 0 THEN NZ ELSE X(0)
+   CASE mag = "z" -> IF sign < 0 THEN NZ ELSE Fin(0)
      [] mag = "f" -> Rat(sign * q.n, q.d)
      [] mag = "m" -> IF sign < 0 THEN NMax ELSE FMax
      [] mag = "i" -> IF sign < 0 THEN NInf ELSE PInf
-FNeg(x) == IF IsNaN(x) THEN NaN ELSE FMk(-FSign(x), FMag(x), IF FMag(x) = "f" THEN FAbsRat(x) ELSE X(1))
-FAbs(x) == IF IsNaN(x) THEN NaN ELSE FMk(1, FMag(x), IF FMag(x) = "f" THEN FAbsRat(x) ELSE X(1))
+FNeg(x) == IF IsNaN(x) THEN NaN ELSE FMk(-FSign(x), FMag(x), IF FMag(x) = "f" THEN FAbsRat(x) ELSE Fin(1))
+FAbs(x) == IF IsNaN(x) THEN NaN ELSE FMk(1, FMag(x), IF FMag(x) = "f" THEN FAbsRat(x) ELSE Fin(1))
 
 \* comparison of two positive rationals / of magnitudes
 RatLess(p, q) == p.n * q.d < q.n * p.d
@@ -100,34 +100,34 @@ FEq(a, b) == ~IsNaN(a) /\ ~IsNaN(b) /\ ~FLess(a, b) /\ ~FLess(b, a)
 FMulDefined(a, b) ==
    \/ IsNaN(a) \/ IsNaN(b)
    \/ LET ma == FMag(a) mb == FMag(b) IN
-      /\ ~(ma = "m" /\ mb = "f" /\ RatLess(FAbsRat(b), X(1)))
-      /\ ~(mb = "m" /\ ma = "f" /\ RatLess(FAbsRat(a), X(1)))
+      /\ ~(ma = "m" /\ mb = "f" /\ RatLess(FAbsRat(b), Fin(1)))
+      /\ ~(mb = "m" /\ ma = "f" /\ RatLess(FAbsRat(a), Fin(1)))
 FMul(a, b) ==
    IF IsNaN(a) \/ IsNaN(b) THEN NaN
    ELSE LET ma == FMag(a) mb == FMag(b) s == FSign(a) * FSign(b) IN
         IF (ma = "z" /\ mb = "i") \/ (ma = "i" /\ mb = "z") THEN NaN
-        ELSE IF ma = "z" \/ mb = "z" THEN FMk(s, "z", X(1))
-        ELSE IF ma = "i" \/ mb = "i" THEN FMk(s, "i", X(1))
-        ELSE IF ma = "m" /\ mb = "m" THEN FMk(s, "i", X(1))
-        ELSE IF ma = "m" THEN (IF FAbsRat(b) = X(1) THEN FMk(s, "m", X(1)) ELSE FMk(s, "i", X(1)))
-        ELSE IF mb = "m" THEN (IF FAbsRat(a) = X(1) THEN FMk(s, "m", X(1)) ELSE FMk(s, "i", X(1)))
+        ELSE IF ma = "z" \/ mb = "z" THEN FMk(s, "z", Fin(1))
+        ELSE IF ma = "i" \/ mb = "i" THEN FMk(s, "i", Fin(1))
+        ELSE IF ma = "m" /\ mb = "m" THEN FMk(s, "i", Fin(1))
+        ELSE IF ma = "m" THEN (IF FAbsRat(b) = Fin(1) THEN FMk(s, "m", Fin(1)) ELSE FMk(s, "i", Fin(1)))
+        ELSE IF mb = "m" THEN (IF FAbsRat(a) = Fin(1) THEN FMk(s, "m", Fin(1)) ELSE FMk(s, "i", Fin(1)))
         ELSE LET p == FAbsRat(a) q == FAbsRat(b) IN FMk(s, "f", Rat(p.n * q.n, p.d * q.d))
 
 FDivDefined(a, b) ==
    \/ IsNaN(a) \/ IsNaN(b)
    \/ LET ma == FMag(a) mb == FMag(b) IN
-      /\ ~(ma = "m" /\ mb = "f" /\ RatLess(X(1), FAbsRat(b)))   \* max/2.5 : unnamed float
+      /\ ~(ma = "m" /\ mb = "f" /\ RatLess(Fin(1), FAbsRat(b)))   \* max/2.5 : unnamed float
       /\ ~(ma = "f" /\ mb = "m")                                 \* 2.5/max : subnormal
 FDiv(a, b) ==
    IF IsNaN(a) \/ IsNaN(b) THEN NaN
    ELSE LET ma == FMag(a) mb == FMag(b) s == FSign(a) * FSign(b) IN
         IF (ma = "z" /\ mb = "z") \/ (ma = "i" /\ mb = "i") THEN NaN
-        ELSE IF mb = "z" THEN FMk(s, "i", X(1))
-        ELSE IF ma = "z" THEN FMk(s, "z", X(1))
-        ELSE IF ma = "i" THEN FMk(s, "i", X(1))
-        ELSE IF mb = "i" THEN FMk(s, "z", X(1))
-        ELSE IF ma = "m" /\ mb = "m" THEN FMk(s, "f", X(1))
-        ELSE IF ma = "m" THEN (IF FAbsRat(b) = X(1) THEN FMk(s, "m", X(1)) ELSE FMk(s, "i", X(1)))
+        ELSE IF mb = "z" THEN FMk(s, "i", Fin(1))
+        ELSE IF ma = "z" THEN FMk(s, "z", Fin(1))
+        ELSE IF ma = "i" THEN FMk(s, "i", Fin(1))
+        ELSE IF mb = "i" THEN FMk(s, "z", Fin(1))
+        ELSE IF ma = "m" /\ mb = "m" THEN FMk(s, "f", Fin(1))
+        ELSE IF ma = "m" THEN (IF FAbsRat(b) = Fin(1) THEN FMk(s, "m", Fin(1)) ELSE FMk(s, "i", Fin(1)))
         ELSE LET p == FAbsRat(a) q == FAbsRat(b) IN FMk(s, "f", Rat(p.n * q.d, p.d * q.n))
         \* the quotient of two floats is in general not a float: the harness
         \* compares with the correctly rounded value of this rational
@@ -138,17 +138,17 @@ FAdd(a, b) ==
         IF ma = "i" /\ mb = "i" THEN (IF sa = sb THEN a ELSE NaN)
         ELSE IF ma = "i" THEN a
         ELSE IF mb = "i" THEN b
-        ELSE IF ma = "m" /\ mb = "m" THEN (IF sa = sb THEN FMk(sa, "i", X(1)) ELSE X(0))
+        ELSE IF ma = "m" /\ mb = "m" THEN (IF sa = sb THEN FMk(sa, "i", Fin(1)) ELSE Fin(0))
         ELSE IF ma = "m" THEN a          \* max + small rounds back to max
         ELSE IF mb = "m" THEN b
-        ELSE IF ma = "z" /\ mb = "z" THEN (IF sa < 0 /\ sb < 0 THEN NZ ELSE X(0))
+        ELSE IF ma = "z" /\ mb = "z" THEN (IF sa < 0 /\ sb < 0 THEN NZ ELSE Fin(0))
         ELSE IF ma = "z" THEN b
         ELSE IF mb = "z" THEN a
         ELSE Rat(a.n * b.d + b.n * a.d, a.d * b.d)   \* exact; x + (-x) = +0
 FSub(a, b) == FAdd(a, FNeg(b))
 
 \* ------------------------------------------------- symbolic integer domain
-\* a value is X(r) (small) or [c|->"sym", n|->1, d|->r] meaning H + r (mod 2H)
+\* a value is Fin(r) (small) or [c|->"sym", n|->1, d|->r] meaning H + r (mod 2H)
 IQ(x) == IF x.c = "sym" THEN 1 ELSE 0
 IR(x) == IF x.c = "sym" THEN x.d ELSE x.n
 IAdd(a, b) == Sym(IQ(a) + IQ(b), IR(a) + IR(b))
@@ -166,7 +166,7 @@ ILess(a, b, signed) ==
 IEq(a, b) == IQ(a) = IQ(b) /\ IR(a) = IR(b)
 IMinS == Sym(1, 0)     \* MIN of a signed type
 IMaxS == Sym(1, -1)    \* MAX of a signed type
-IMaxU == X(-1)         \* MAX of an unsigned type (all ones)
+IMaxU == Fin(-1)         \* MAX of an unsigned type (all ones)
 \* truncating division: decided for small/small and for division by +-1
 IDivDefined(a, b, signed) ==
    \/ (IQ(a) = 0 /\ IQ(b) = 0 /\ IR(b) # 0 /\ (signed \/ (IR(a) >= 0 /\ IR(b) >= 0)))
@@ -175,6 +175,6 @@ IDivDefined(a, b, signed) ==
 IDiv(a, b, signed) ==
    IF IQ(b) = 0 /\ IR(b) = 1 THEN a
    ELSE IF IQ(b) = 0 /\ IR(b) = -1 THEN INeg(a)
-   ELSE X(TDiv(IR(a), IR(b)))
+   ELSE Fin(TDiv(IR(a), IR(b)))
 
 =============================================================================
